@@ -414,8 +414,10 @@ fn handle_item(
             handle_body(body, &mut dest, scope, file_context)?;
         }
         Item::Comment(c) => {
-            if !scope.get_format().is_compressed() {
-                dest.push_comment(c.evaluate(scope)?.take_value().into());
+            let compressed = scope.get_format().is_compressed();
+            let c = c.evaluate(scope)?.take_value();
+            if !compressed || c.starts_with('!') {
+                dest.push_comment(c.into());
             }
         }
         Item::None => (),
